@@ -11,7 +11,8 @@ Check(o, tab, i) ==
        IF k \in DOMAIN o.raw
        THEN (IF f \notin DOMAIN o.dec THEN "field-missing:" \o f
              ELSE IF o.dec[f] # Xf(kind, o.raw[k]) THEN "field-value:" \o f ELSE Check(o, tab, i + 1))
-       ELSE (IF f \in DOMAIN o.dec /\ o.dec[f] # DefaultOf(kind) THEN "absent-field-not-default:" \o f ELSE Check(o, tab, i + 1))
+       ELSE (IF f \in DOMAIN o.dec /\ o.dec[f] # (IF kind = "str" THEN o.empty ELSE DefaultOf(kind))
+             THEN "absent-field-not-default:" \o f ELSE Check(o, tab, i + 1))
 Verdict(o) == IF "err" \in DOMAIN o THEN "raised:" \o o.err
               ELSE LET m == Check(o, Mandatory, 1) IN IF m # "ok" THEN m ELSE Check(o, Optional, 1)
 ASSUME PrintT(<<"VAL", Len(Obs)>>)
